@@ -106,6 +106,10 @@ func c03RawSig(c *Ctx) {
 			}
 			if _, isParam := v.(*ssa.Parameter); !isParam {
 				good = false
+			} else {
+				// a pure re-slicing chain of the parameter is the caller's memory, whatever
+				// the points-to summary of the helpers in the chain (CutPrefix) adds
+				good = true
 			}
 			r.Check(good, "C03.rawsig", key, p.Pos(ins.Pos()), "the signature handed to the stdlib verifier is not the caller's bytes (a sub-slice of the input parameter) but a rebuilt/padded buffer: encodings the standard rejects may be normalised into acceptance (points to: "+strings.Join(roots, ",")+")",
 				"signature argument is a sub-slice of the input parameter")
@@ -482,6 +486,14 @@ func legacySuffixRule(c *Ctx, prop string, pkgs []string, methods map[string]boo
 					case *ssa.BinOp:
 						if x.Op == token.EQL && (isConstEq(x.Y, legacyPT) || isConstEq(x.X, legacyPT)) {
 							good = true
+						}
+						// or the key's own variant == VariantLegacy
+						if x.Op == token.EQL && hasVariant && (isConstEq(x.Y, legacyConst) || isConstEq(x.X, legacyConst)) {
+							for _, side := range []ssa.Value{x.X, x.Y} {
+								if tn := core.NamedOf(side.Type()); tn != nil && tn.Obj().Name() == "Variant" {
+									good = true
+								}
+							}
 						}
 					case *ssa.Phi:
 						for _, e := range x.Edges {
